@@ -260,6 +260,7 @@ type handle struct {
 }
 
 type item struct {
+	gap  bool // at some moment since it was sent no handle of its key was open: it may have been dropped
 	id   int
 	key  int
 	conn net.Conn // stream client side
@@ -276,6 +277,9 @@ type scenario struct {
 	slots    map[int]*handle
 	items    []*item
 	inOp     map[int]string // thread -> current op ("" if between ops / done)
+	got      map[int]bool   // items received by some accept/read call
+	waitKey  map[int]int    // thread -> key of the handle it is waiting on in accept/read (0 = none)
+	openCnt  map[int]int    // key -> handles listened and not yet closed (driver-side estimate, only used to avoid useless waiting)
 	finished map[int]bool
 	lg       sync.Mutex
 }
@@ -321,7 +325,7 @@ func freePort() int {
 
 func newScenario(tr *hx.Trace, kinds map[int]string) *scenario {
 	sc := &scenario{tr: tr, mgr: service.NewListenerManager(), kinds: kinds, addrs: map[int]string{},
-		slots: map[int]*handle{}, inOp: map[int]string{}, finished: map[int]bool{}}
+		slots: map[int]*handle{}, inOp: map[int]string{}, finished: map[int]bool{}, got: map[int]bool{}, waitKey: map[int]int{}, openCnt: map[int]int{}}
 	sc.cond = sync.NewCond(&sc.mu)
 	// keys that model the same address for tcp and udp may share a port; simply give each key its own port
 	for k := range kinds {
@@ -368,6 +372,7 @@ func (sc *scenario) runThread(t int, script []op, s *sched, wg *sync.WaitGroup) 
 			sc.mu.Lock()
 			if err == nil {
 				hnd.filled = true
+				sc.openCnt[o.K]++
 			} else {
 				hnd.filled = true
 				hnd.closed = true
@@ -385,6 +390,16 @@ func (sc *scenario) runThread(t int, script []op, s *sched, wg *sync.WaitGroup) 
 			sc.mu.Lock()
 			already := hnd.closed
 			hnd.closed = true
+			if !already {
+				sc.openCnt[hnd.key]--
+				if sc.openCnt[hnd.key] <= 0 {
+					for _, it := range sc.items {
+						if it.key == hnd.key {
+							it.gap = true
+						}
+					}
+				}
+			}
 			sc.mu.Unlock()
 			if already && hnd.kind == "p" {
 				continue // a packet handle must be closed once only (API contract)
@@ -402,6 +417,9 @@ func (sc *scenario) runThread(t int, script []op, s *sched, wg *sync.WaitGroup) 
 				continue
 			}
 			sc.setOp(t, "accept")
+			sc.mu.Lock()
+			sc.waitKey[t] = hnd.key
+			sc.mu.Unlock()
 			sc.emit(map[string]any{"ev": "AcceptStart", "t": t, "h": o.H})
 			if hnd.kind == "s" {
 				c, err := hnd.sl.AcceptStream()
@@ -413,6 +431,9 @@ func (sc *scenario) runThread(t int, script []op, s *sched, wg *sync.WaitGroup) 
 					id := parseItem(string(buf[:n]))
 					c.Write([]byte(fmt.Sprintf("H%d\n", o.H)))
 					c.Close()
+					sc.mu.Lock()
+					sc.got[id] = true
+					sc.mu.Unlock()
 					sc.emit(map[string]any{"ev": "AcceptEnd", "t": t, "h": o.H, "res": "item", "item": id})
 				} else if errors.Is(err, net.ErrClosed) {
 					sc.emit(map[string]any{"ev": "AcceptEnd", "t": t, "h": o.H, "res": "closed", "item": 0})
@@ -423,6 +444,9 @@ func (sc *scenario) runThread(t int, script []op, s *sched, wg *sync.WaitGroup) 
 				buf := make([]byte, 2048)
 				n, _, err := hnd.pc.ReadFrom(buf)
 				if err == nil {
+					sc.mu.Lock()
+					sc.got[parseItem(string(buf[:n]))] = true
+					sc.mu.Unlock()
 					sc.emit(map[string]any{"ev": "AcceptEnd", "t": t, "h": o.H, "res": "item", "item": parseItem(string(buf[:n]))})
 				} else if errors.Is(err, net.ErrClosed) {
 					sc.emit(map[string]any{"ev": "AcceptEnd", "t": t, "h": o.H, "res": "closed", "item": 0})
@@ -432,6 +456,9 @@ func (sc *scenario) runThread(t int, script []op, s *sched, wg *sync.WaitGroup) 
 			}
 		}
 		sc.setOp(t, "")
+		sc.mu.Lock()
+		sc.waitKey[t] = 0
+		sc.mu.Unlock()
 	}
 	sc.mu.Lock()
 	sc.finished[t] = true
@@ -451,10 +478,12 @@ func parseItem(s string) int {
 func (sc *scenario) connect(k int) {
 	sc.mu.Lock()
 	id := len(sc.items) + 1
-	it := &item{id: id, key: k}
+	it := &item{id: id, key: k, gap: sc.openCnt[k] <= 0}
 	sc.items = append(sc.items, it)
 	sc.mu.Unlock()
 	msg := []byte(fmt.Sprintf("item %d\n", id))
+	// the item reaches the socket at some instant between ConnectStart and Connect
+	sc.emit(map[string]any{"ev": "ConnectStart", "item": id, "k": k})
 	if sc.kinds[k] == "s" {
 		c, err := net.DialTimeout("tcp", sc.addrs[k], time.Second)
 		if err == nil {
@@ -471,6 +500,31 @@ func (sc *scenario) connect(k int) {
 		}
 	}
 	sc.emit(map[string]any{"ev": "Connect", "item": id, "k": k, "ok": it.ok, "kind": sc.kinds[k]})
+}
+
+// settleDeliveries waits until every successfully sent item has been received by some call, or nobody is waiting in
+// accept/read any more, or the time is up.
+func (sc *scenario) settleDeliveries(d time.Duration) {
+	deadline := time.Now().Add(d)
+	for time.Now().Before(deadline) {
+		sc.mu.Lock()
+		pending, waiting := 0, 1
+		for _, it := range sc.items {
+			if it.ok && !it.gap && !sc.got[it.id] {
+				for t, o := range sc.inOp {
+					if o == "accept" && sc.waitKey[t] == it.key {
+						pending++
+						break
+					}
+				}
+			}
+		}
+		sc.mu.Unlock()
+		if pending == 0 || waiting == 0 {
+			return
+		}
+		time.Sleep(time.Millisecond)
+	}
 }
 
 func (sc *scenario) threadDone(t int) bool {
@@ -536,6 +590,10 @@ func (sc *scenario) finish(nThreads int, wg *sync.WaitGroup, watchdog time.Durat
 	// can run to their end
 	clean := len(stuck) == 0
 	if clean {
+		// "never lost while some handle keeps accepting": give every connection/datagram that nobody has received yet
+		// ample time to reach one of the calls that are still waiting, then mark the instant for the trace spec
+		sc.settleDeliveries(3 * time.Second)
+		sc.emit(map[string]any{"ev": "CleanupStart"})
 		cdeadline := time.Now().Add(2 * watchdog)
 		for {
 			finished := false
